@@ -36,6 +36,7 @@ type UnitCfg struct {
 	Init      []string          `json:"init,omitempty"`
 	Once      []string          `json:"once,omitempty"`
 	Env       map[string]string `json:"env,omitempty"`
+	ZeroStubs []string          `json:"zero_stubs,omitempty"` // functions replaced by "return zero values"
 	Harnesses []HarnessCfg      `json:"harnesses"`
 }
 
@@ -61,6 +62,7 @@ type ReplayFile struct {
 	Once     []string          `json:"once,omitempty"`
 	Env      map[string]string `json:"env,omitempty"`
 	Stubs    map[string]string `json:"stubs,omitempty"`
+	ZeroStubs []string         `json:"zero_stubs,omitempty"`
 	Harness  string            `json:"harness"`
 	Label    string            `json:"label"`
 	Msg      string            `json:"msg,omitempty"`
@@ -117,7 +119,7 @@ func loadUnit(repo, verif string, u UnitCfg) (*interp.Program, error) {
 func exploreCfg(u UnitCfg, h HarnessCfg, params map[string]int, workers int) interp.ExploreConfig {
 	ec := interp.ExploreConfig{
 		HarnessPkg: snapd + "/" + u.Pkg, HarnessFn: h.Fn, Workers: workers,
-		Solver: smt.Options{PreferCVC: h.CVC}, Params: params, Env: u.Env, MapOrder: h.MapOrder,
+		Solver: smt.Options{PreferCVC: h.CVC}, Params: params, Env: u.Env, MapOrder: h.MapOrder, ZeroStubs: u.ZeroStubs,
 	}
 	ec.OnceInit = append(defaultOnce(), u.Once...)
 	if len(u.Init) > 0 {
@@ -309,7 +311,7 @@ func cmdCheck(args []string) int {
 		}
 		seenLabel[fv.v.Label] = true
 		kf := matchKnown(known, prop, fv.v.Label)
-		rf := ReplayFile{Property: prop, Pkg: fv.u.Pkg, Files: fv.u.Files, Init: fv.u.Init, Once: fv.u.Once, Env: fv.u.Env, Stubs: fv.u.Stubs,
+		rf := ReplayFile{Property: prop, Pkg: fv.u.Pkg, Files: fv.u.Files, Init: fv.u.Init, Once: fv.u.Once, Env: fv.u.Env, Stubs: fv.u.Stubs, ZeroStubs: fv.u.ZeroStubs,
 			Harness: fv.h.Fn, Label: fv.v.Label, Msg: fv.v.Msg, Trace: fv.v.Trace, Values: map[string]uint64{}, Params: fv.params, MapOrder: fv.h.MapOrder}
 		for _, nd := range fv.v.Nondet {
 			rf.Values[nd.Name] = nd.Value
@@ -423,7 +425,7 @@ func replayFile(repo, verif, path string, quiet bool) (bool, string) {
 	if err := json.Unmarshal(data, &rf); err != nil {
 		return false, err.Error()
 	}
-	u := UnitCfg{Pkg: rf.Pkg, Files: rf.Files, Init: rf.Init, Once: rf.Once, Env: rf.Env, Stubs: rf.Stubs}
+	u := UnitCfg{Pkg: rf.Pkg, Files: rf.Files, Init: rf.Init, Once: rf.Once, Env: rf.Env, Stubs: rf.Stubs, ZeroStubs: rf.ZeroStubs}
 	prog, err := loadUnit(repo, verif, u)
 	if err != nil {
 		return false, "load: " + firstLine(err.Error())
